@@ -95,6 +95,7 @@ class SiteAnalysis:
         self.worlds = 0
         self.used_registrations: set[int] = set()
         self.native_tables: dict[str, list] = {}
+        self.imprecise: list = []
 
     # ---------------------------------------------------------------------------------- discovery
     def discover(self):
@@ -297,6 +298,11 @@ class SiteAnalysis:
             results = ev.run(alt, lambda w, leaf, alt=alt: self.judge(ev, site, alt, w, leaf))
             for w, leaf, issues in results:
                 self.worlds += 1
+                if ev.imprecise and issues:
+                    # the path to this leaf goes through a test the analysis could not decide (it looks at the
+                    # whole mapping): the leaf may be infeasible, so its issues are not verdicts
+                    self.imprecise.append((site, handler_desc, alt, [i for i in issues if i[0] not in ("mapiter",)]))
+                    issues = [i for i in issues if i[0] == "mapiter"]
                 o = Outcome(site, handler_desc, alt, w.describe(), self.leaf_desc(leaf), issues)
                 o.leaf_kind = leaf.kind
                 o.leaf_ty = getattr(leaf, "ty", None)
